@@ -33,6 +33,9 @@ CLAIMED.update({
  "C12": C("property-based testing: generated weighted multigraphs; oracle = structural forest predicate + naive Prim optimum cross-checked by exhaustive subset enumeration",
           "min_spanning_tree element streams (and the graph built from them) and min_spanning_tree_prim on 10 encodings, i32 and exact f64 weights: node order, edge membership, acyclicity, |V|-c edges and minimum total weight.",
           "the naive Prim / subset enumeration in props/c12.rs", "DESIGN.md section 5, C12"),
+ "C13": C("property-based testing: generated graph pairs (positive, near-miss, 2-switch, independent) + metamorphic relabeling; oracle = exhaustive enumeration of injective maps under the definition",
+          "is_isomorphic, is_isomorphic_subgraph, the _matching variants (three predicate kinds) and subgraph_isomorphisms_iter (set equality, no duplicates, termination) on Graph and GraphMap, repeated after relabeling both arguments.",
+          "the 40-line backtracking enumerator in props/c13.rs", "DESIGN.md section 5, C13"),
 })
 PLANNED = {}
 
